@@ -16,14 +16,17 @@ package main
 //       become -(a + b).
 
 import (
+	"fmt"
 	"go/token"
 	"go/types"
+	"strings"
 
 	"golang.org/x/tools/go/ssa"
 )
 
 func checkPrecedenceDescent(w *World, r *Report) {
 	precObj := w.fn("getOperatorPrecedence")
+	checkPrecedenceAskedOfWholeOperators(w, r, precObj)
 	isPrecCall := func(v ssa.Value, seen map[ssa.Value]bool) bool {
 		var walk func(v ssa.Value) bool
 		walk = func(v ssa.Value) bool {
@@ -781,4 +784,125 @@ func noQuoteInside(cf condFact, derived map[ssa.Value]bool) bool {
 		}
 	}
 	return false
+}
+
+// checkPrecedenceAskedOfWholeOperators — R08.22: the precedence table is asked about operators,
+// not about words.  The table has entries for operators written as two words (`not in`,
+// `starts with`, `ends with`, `is not`); the first word alone is not an entry and gets the lowest
+// precedence.  Every call of the precedence function therefore passes a value that can be one of
+// those two-word entries — the caller has joined the words — never just the text of one token.
+func checkPrecedenceAskedOfWholeOperators(w *World, r *Report, precObj *types.Func) {
+	precFn := w.ssaFunc(precObj)
+	twoWord := map[string]bool{}
+	var collectConsts func(fn *ssa.Function)
+	collectConsts = func(fn *ssa.Function) {
+		instrsOf(fn, func(in ssa.Instruction) {
+			for _, op := range in.Operands(nil) {
+				if *op == nil {
+					continue
+				}
+				if cs, ok := constString(*op); ok && strings.Contains(strings.TrimSpace(cs), " ") {
+					twoWord[cs] = true
+				}
+			}
+		})
+	}
+	collectConsts(precFn)
+	if len(twoWord) == 0 {
+		// a table in a package-level map: its initialiser
+		if init := precFn.Pkg.Func("init"); init != nil {
+			usesGlobal := map[*ssa.Global]bool{}
+			instrsOf(precFn, func(in ssa.Instruction) {
+				for _, op := range in.Operands(nil) {
+					if g, ok := (*op).(*ssa.Global); ok {
+						usesGlobal[g] = true
+					}
+				}
+			})
+			instrsOf(init, func(in ssa.Instruction) {
+				mu, ok := in.(*ssa.MapUpdate)
+				if !ok {
+					return
+				}
+				if ld, ok := mu.Map.(*ssa.UnOp); ok {
+					if g, ok := ld.X.(*ssa.Global); ok && usesGlobal[g] {
+						if cs, ok := constString(mu.Key); ok && strings.Contains(strings.TrimSpace(cs), " ") {
+							twoWord[cs] = true
+						}
+					}
+				}
+			})
+		}
+	}
+	if len(twoWord) == 0 {
+		r.Counts["two-word entries of the precedence table"] = 0
+		return
+	}
+	n := 0
+	for _, fn := range w.pkgFuncs() {
+		if fn == precFn {
+			continue
+		}
+		instrsOf(fn, func(in ssa.Instruction) {
+			c, ok := in.(*ssa.Call)
+			if !ok || c.Call.StaticCallee() != precFn || len(c.Call.Args) == 0 {
+				return
+			}
+			n++
+			found := false
+			seen := map[ssa.Value]bool{}
+			var walk func(v ssa.Value, d int)
+			walk = func(v ssa.Value, d int) {
+				v = unspill(v)
+				if v == nil || seen[v] || d > 10 || found {
+					return
+				}
+				seen[v] = true
+				switch x := v.(type) {
+				case *ssa.Const:
+					if cs, ok := constString(x); ok && twoWord[cs] {
+						found = true
+					}
+				case *ssa.Phi:
+					for _, e := range x.Edges {
+						walk(e, d+1)
+					}
+				case *ssa.Extract:
+					walk(x.Tuple, d+1)
+				case *ssa.Call:
+					if g := x.Call.StaticCallee(); g != nil && isTwigFn(g) && d < 6 {
+						instrsOf(g, func(in2 ssa.Instruction) {
+							if ret, ok := in2.(*ssa.Return); ok {
+								for _, rv := range retResults(ret) {
+									if b, ok := rv.Type().Underlying().(*types.Basic); ok && b.Kind() == types.String {
+										walk(rv, d+3)
+									}
+								}
+							}
+						})
+					}
+				case *ssa.Parameter:
+					// the caller's operator: examined at the callers
+					if cvs, ok := callerValues(x, -1); ok {
+						for _, cv := range cvs {
+							walk(cv.val, d+3)
+						}
+					}
+				case *ssa.BinOp:
+					// joined words: first + " " + second
+					if x.Op == token.ADD {
+						found = true
+					}
+				}
+			}
+			walk(c.Call.Args[0], 0)
+			construct := "precedence asked of a whole operator"
+			if found {
+				r.ok("R08.22", ssaName(fn), construct, w.posOf(c.Pos()), "the argument can be a two-word operator of the table: the words were joined first", true)
+			} else {
+				r.bad("R08.22", ssaName(fn), construct, w.posOf(c.Pos()), "the argument is never one of the table's two-word operators "+fmt.Sprint(sortedKeys(twoWord))+": for `not in`, `starts with`, `ends with` the table is asked about the first word, answers 'lowest', and the operator binds weaker than `and` / `or` — `a and b starts with c` groups as (a and b) starts with c")
+			}
+		})
+	}
+	r.floor("calls of the precedence function", n, 1)
 }
